@@ -519,14 +519,8 @@ pub fn analyze<'a>(prog: &'a Program, tr: &'a [Ev]) -> Analysis<'a> {
                         Note::Removed { ent, comp, had: true } => {
                             a.removals.push(Removal { pos, ent: *ent, comp: *comp, by_despawn: false, cmd: i, op: cur_op });
                         }
-                        Note::Despawned { ent, was_alive: true, had } => {
-                            for c in 0..NT {
-                                if had[c] {
-                                    a.removals.push(Removal { pos, ent: *ent, comp: c as u8, by_despawn: true, cmd: i, op: cur_op });
-                                }
-                            }
-                            a.deaths.push(EntDeath { pos, ent: *ent, cmd: i, op: cur_op });
-                        }
+                        // (despawns are taken from `Ev::EntGone`, written by the marker component's hook at the instant an
+                        // entity goes, whatever despawned it: command, recursion, garbage collection)
                         Note::SysDespawned { inst, was_alive: true } => {
                             a.insts[*inst].explicit_despawn = Some(pos);
                         }
@@ -536,6 +530,15 @@ pub fn analyze<'a>(prog: &'a Program, tr: &'a [Ev]) -> Analysis<'a> {
                         _ => {}
                     }
                 }
+            }
+            Ev::EntGone { ent, had } => {
+                let ci = encl_here.map(|c| c as usize).unwrap_or(0);
+                for c in 0..NT {
+                    if had[c] {
+                        a.removals.push(Removal { pos, ent: *ent, comp: c as u8, by_despawn: true, cmd: ci, op: cur_op });
+                    }
+                }
+                a.deaths.push(EntDeath { pos, ent: *ent, cmd: ci, op: cur_op });
             }
             Ev::ProbeObs { cmd, obs } => {
                 if let Some(i) = a.cmd_idx.get(cmd).copied() {
